@@ -74,6 +74,24 @@ func (c *Ctx) checkAssert(rule string, dt *core.DynTypes, fn *ssa.Function, ta *
 				return
 			}
 		}
+		// D5 over a merge: the operand is assigned in the cases of the type switch and asserted after it - every
+		// assignment is made where the case establishes the type parameter to be the type assigned
+		if tp, ok := ta.AssertedType.(*types.TypeParam); ok {
+			if phi, isPhi := ta.X.(*ssa.Phi); isPhi && len(phi.Edges) > 0 {
+				allFixed := true
+				for i, e := range phi.Edges {
+					pred := phi.Block().Preds[i]
+					es := dt.Of(e, pred)
+					if es.Top || es.MayNil || len(es.Types) != 1 || !typeParamFixedTo(pred, tp, es.Types[0]) {
+						allFixed = false
+					}
+				}
+				if allFixed {
+					c.R.Ok(rule, k, pos, what, "D5 generic idiom: every value merged into the operand is assigned under a type-switch case that establishes "+tp.Obj().Name()+" to be its type")
+					return
+				}
+			}
+		}
 		c.R.Bad(rule, k, pos, what, "provenance of the operand is "+ts.String()+", which is not contained in {"+typeStr(ta.AssertedType)+"}: the assertion panics for the other types")
 		return
 	}
@@ -338,27 +356,127 @@ func (c *Ctx) typeIDGate(ta *ssa.TypeAssert) (string, bool) {
 			continue
 		}
 		// all types that can report kconst must implement `it`
-		bad := ""
-		n := 0
-		for _, named := range c.serializableTypes() {
-			ids, constant := c.typeIDsOf(named)
-			if !constant {
-				continue // pass-through (property): delegates to its inner type, which is what .Type() returns
-			}
-			for _, id := range ids {
-				if id == kconst {
-					n++
-					if !types.Implements(types.NewPointer(named), it) && !types.Implements(named, it) && !implementsByName(named, it) {
-						bad = named.Obj().Name()
+		if n, ok := c.typeIDImplies(kconst, it); ok {
+			return sprintf("D6 TypeID gate: dominated by TypeID() == %q and all %d repo types reporting it implement %s", kconst, n, typeStr(ta.AssertedType)), true
+		}
+	}
+	// the gate is the key of a dispatch table: the assertion sits in a function that a package-level map, filled by the
+	// package initialiser only, holds under the constant key K, the operand is a parameter of it, and every call that
+	// can run the function takes it out of that map with the result of a TypeID() call as the key
+	if prm, isParam := ta.X.(*ssa.Parameter); isParam {
+		fn := prm.Parent()
+		if init := fn.Parent(); init != nil && init.Name() == "init" {
+			for _, b := range init.Blocks {
+				for _, in := range b.Instrs {
+					mu, ok := in.(*ssa.MapUpdate)
+					if !ok {
+						continue
+					}
+					held := false
+					switch v := mu.Value.(type) {
+					case *ssa.MakeClosure:
+						held = v.Fn == ssa.Value(fn)
+					case *ssa.Function:
+						held = v == fn
+					}
+					kconst, isConst := core.ConstString(mu.Key)
+					if !held || !isConst {
+						continue
+					}
+					// the global the map is kept in
+					var g *ssa.Global
+					if refs := mu.Map.Referrers(); refs != nil {
+						for _, r := range *refs {
+							if st, ok := r.(*ssa.Store); ok && st.Val == mu.Map {
+								g, _ = st.Addr.(*ssa.Global)
+							}
+						}
+					}
+					if g == nil || !c.M.IsDispatchTable(g) || !c.calledOnlyByTypeIDKey(fn, g) {
+						continue
+					}
+					if n, ok := c.typeIDImplies(kconst, it); ok {
+						return sprintf("D6 TypeID gate: the function is an entry of the dispatch table %s under the key %q, is only run through a lookup in it by the result of TypeID(), and all %d repo types reporting that ID implement %s", g.Name(), kconst, n, typeStr(ta.AssertedType)), true
 					}
 				}
 			}
 		}
-		if n > 0 && bad == "" {
-			return sprintf("D6 TypeID gate: dominated by TypeID() == %q and all %d repo types reporting it implement %s", kconst, n, typeStr(ta.AssertedType)), true
-		}
 	}
 	return "", false
+}
+
+// typeIDImplies: all types of the module that can report the type ID implement the interface (n of them, n > 0).
+func (c *Ctx) typeIDImplies(kconst string, it *types.Interface) (int, bool) {
+	bad := ""
+	n := 0
+	for _, named := range c.serializableTypes() {
+		ids, constant := c.typeIDsOf(named)
+		if !constant {
+			continue // pass-through (property): delegates to its inner type, which is what .Type() returns
+		}
+		for _, id := range ids {
+			if id == kconst {
+				n++
+				if !types.Implements(types.NewPointer(named), it) && !types.Implements(named, it) && !implementsByName(named, it) {
+					bad = named.Obj().Name()
+				}
+			}
+		}
+	}
+	return n, n > 0 && bad == ""
+}
+
+// calledOnlyByTypeIDKey: every call of the module that can run fn takes the function out of the table g with the
+// result of a TypeID() call as the key.
+func (c *Ctx) calledOnlyByTypeIDKey(fn *ssa.Function, g *ssa.Global) bool {
+	sites := 0
+	for _, caller := range c.M.Funcs {
+		for _, b := range caller.Blocks {
+			for _, in := range b.Instrs {
+				ci, ok := in.(ssa.CallInstruction)
+				if !ok {
+					continue
+				}
+				runs := false
+				for _, callee := range c.M.Callees(ci.Common()) {
+					if callee == fn {
+						runs = true
+					}
+				}
+				if !runs {
+					continue
+				}
+				sites++
+				v := ci.Common().Value
+				if ex, ok := v.(*ssa.Extract); ok {
+					v = ex.Tuple
+				}
+				lk, ok := v.(*ssa.Lookup)
+				if !ok {
+					return false
+				}
+				ld, ok := lk.X.(*ssa.UnOp)
+				if !ok || ld.X != ssa.Value(g) {
+					return false
+				}
+				key, ok := lk.Index.(*ssa.Call)
+				if !ok {
+					return false
+				}
+				mname := ""
+				if key.Call.IsInvoke() {
+					mname = key.Call.Method.Name()
+				} else if cs := c.M.Callees(&key.Call); len(cs) == 1 {
+					k := c.M.Key(cs[0])
+					mname = k[strings.LastIndex(k, ".")+1:]
+				}
+				if mname != "TypeID" {
+					return false
+				}
+			}
+		}
+	}
+	return sites > 0
 }
 
 func implementsByName(named *types.Named, it *types.Interface) bool {
